@@ -512,7 +512,7 @@ class C10(Prop):
         return cases
 
     def budget(self, tier):
-        return 800 if tier == "quick" else 8000
+        return 320 if tier == "quick" else 5000
 
     def corpus(self, ctx):
         out = []
